@@ -162,6 +162,26 @@ class Bench:
             if nd is not self.node:
                 nd.raw_endpoint.close()
 
+    async def deliver_with_failing_send(self, src: tuple, data: bytes) -> None:
+        """
+        The genuine datagram arrives while the node cannot send (network unreachable): whatever the handler leaves
+        behind when its answer fails must not matter to the datagrams that follow.
+        """
+        ep = self.node.raw_endpoint
+
+        def unreachable(address, packet):
+            raise OSError(101, "Network is unreachable")
+        ep.send = unreachable
+        try:
+            ep.deliver(src, data)
+            # handlers may be coroutines: they get the loop (no time passes) while sending still fails, so that no
+            # late answer to the genuine datagram is mistaken for a reaction to the mutant that follows
+            import asyncio
+            for _ in range(5):
+                await asyncio.sleep(0)
+        finally:
+            del ep.send
+
     def record(self, overlay, ids, kind, first) -> None:
         if overlay is self.ov:
             self.entered.append((tuple(ids), kind, first))
@@ -294,6 +314,10 @@ def run_scenario_case(ctx: Ctx | None, scenario: str, shard: int, nshards: int, 
                     elif k % nshards != shard:
                         continue
                     case = {**base, "op": op, "pos": pos}
+                    if only.get("after_failed_send") if only is not None else (k // nshards) % 5 == 2:
+                        # history: the genuine datagram is handled first while the receiver's own sends fail
+                        case["after_failed_send"] = 1
+                        await b.deliver_with_failing_send(src, d)
                     # src variations: original source, and a spoofed one
                     try:
                         nt = await b.judge(src if pos % 2 == 0 else ("6.6.6.6", 6000), x, case)
